@@ -50,6 +50,7 @@ REACTIONS = {
     "omega": ({"catalogue": "jpsi_gpipi_omega.hel"}, False),
     "kspfull-dpd": ({"catalogue": "jpsi_ksp_full.hel"}, True),
     "four": ({"spec": None}, False),
+    "syn-zero": ({"spec": None}, False),
     "syn-dpd": ({"spec": None}, True),
 }
 
@@ -90,6 +91,11 @@ def _load_reaction(key):
         r = R.load_catalogue(src["catalogue"])
     elif key == "four":
         r = R.build_reaction(_four_spec())
+    elif key == "syn-zero":
+        # R(J=0) -> C(1) D(0): only lambda_C = 0 has transitions; axis-angle alignment sums
+        # over -1, 0, 1, so whether vanishing amplitudes exist depends on the alignment
+        r = R.build_reaction(R.three_body_spec(1, 0, 1, 0, [(0, R.P("R1", 0, 1.2, -1), False, False)],
+                                               parities=(-1, 1, -1, -1)))
     else:
         r = R.build_reaction(_syn_spec())
     if zero_based:
@@ -102,7 +108,7 @@ def _load_reaction(key):
 def alphabet(key: str, tier: str) -> list[list]:
     zero_based = REACTIONS[key][1]
     # BW with form factor needs L: canonical formalism or integer-spin resonances
-    ff_ok = key in {"gpipi-can", "omega", "four"}
+    ff_ok = key in {"gpipi-can", "omega", "four", "syn-zero"}
     ops = [
         ["set", "stable_final_state_ids", "all"],
         ["set", "stable_final_state_ids", "first"],
@@ -165,7 +171,7 @@ CHUNK_SIZE = 40
 
 def cases(tier, seed):
     out = []
-    keys = ["ksp-dpd", "ksp", "omega", "four"] if tier == "quick" else [k for k in REACTIONS if k != "kspfull-dpd"]
+    keys = ["ksp-dpd", "ksp", "omega", "four", "syn-zero"] if tier == "quick" else [k for k in REACTIONS if k != "kspfull-dpd"]
     # two builders on two DIFFERENT reactions (same particles, restricted helicity set)
     for base in bases("kspfull-dpd"):
         hs = [h for h in histories("kspfull-dpd", tier, True) if len(h) <= (3 if tier == "quick" else 4)]
